@@ -11,10 +11,10 @@ import (
 
 func init() {
 	props["C18"] = &propCheck{
-		lean:    []string{"JSight.Props.C18"},
+		lean:    []string{"JSight.Props.C18", "JSight.Props.C18_Include", "JSight.Props.C04_Pipeline"},
 		exes:    []string{"jsight-ctx"},
 		run:     runC18,
-		assume:  []string{"the ban check of addDirective (catalog phase) is redundant after the keyword-time check and is not modelled", "file access before the ban is observed with a canary, not traced"},
+		assume:  []string{"the ban check of addDirective (catalog phase) is redundant after the keyword-time check and is not modelled", "that no file is read behind a banned INCLUDE is a theorem of the multi-file scan model (C18_Include.banned_include_reads_nothing: the result depends on the root file only), tied by the projectb correspondence; on the real code it is additionally observed with a canary (a banned INCLUDE of a non-existent file), not traced"},
 		rule:    "all 30 singleton ban sets and sampled larger ones x generated documents with and without the banned kinds (written directly, brought in by PASTE, in an included file); non-trivial = non-empty ban set and a document with >= 3 directive kinds; distinct = distinct (ban set, document)",
 		trusted: []string{"the harness-side renderer; 'no file read before the ban' is observed through a canary: the banned INCLUDE names a file that does not exist, so any read attempt changes the diagnostic"},
 	}
